@@ -183,6 +183,13 @@ PerCellAndFrame == (mainpc = "returned" /\ Bug = "none") => mem = Declarative
 FrameAlways == \A l \in Locs(cfg) :
                   (l[1] \in {"P", "I"} \/ (l[1] = "O" /\ (l[2] >= cfg.nc \/ l[3] >= cfg.t))) => mem[l] = <<"init", l>>
 
+\* the footprints of Program(i) as plain sets -- the form in which RunFootprintProof.tla (TLAPS) proves NoRace for ANY
+\* number of cells, parameter sets, input blocks and timesteps; TLC checks here that the two formulations coincide
+SetW(i) == {<<"S", i>>} \cup {<<"O", i, t>> : t \in 0..(cfg.t - 1)}
+SetR(i) == {<<"P", i % cfg.np>>, <<"S", i>>} \cup {<<"I", i % cfg.nb, t>> : t \in 0..(cfg.t - 1)}
+ProgLocs(i, k) == {Program(i)[n][2] : n \in {n \in 1..Len(Program(i)) : Program(i)[n][1] = k}}
+FootprintsAreSets == Bug = "none" => \A i \in 0..(cfg.nc - 1) : ProgLocs(i, "w") = SetW(i) /\ ProgLocs(i, "r") = SetR(i)
+
 \* every Run call terminates (under fair scheduling of goroutines)
 Terminates == <>(mainpc = "returned")
 =============================================================================
